@@ -25,8 +25,10 @@ import (
 	"bytes"
 	"fmt"
 	"go/ast"
+	"go/parser"
 	"go/printer"
 	"go/token"
+	"path/filepath"
 	"strings"
 )
 
@@ -50,6 +52,12 @@ type cfacts struct {
 	files map[string]*ast.File
 	list  []cfact
 	errs  []string
+	// one FileSet for every parsed file, so that a node's position names its file
+	fset *token.FileSet
+	// literal expressions resolved (str / num) since the last fact was added: where that fact lives in the source
+	sites []factSite
+	// fact name → the sites it was read from (for the constant-mutation self-test, lib/constmut.py)
+	siteOf map[string][]factSite
 	// anchors that failed since the last fact was added: the next fact added depends on them
 	pending []string
 	// fact name → why it could not be read
@@ -65,7 +73,30 @@ func (c *cfacts) fail(format string, a ...interface{}) {
 	c.pending = append(c.pending, msg)
 }
 
+// where a constant was read: byte offsets of the literal expression in its file
+type factSite struct {
+	File  string `json:"file"`
+	Start int    `json:"start"`
+	End   int    `json:"end"`
+	Kind  string `json:"kind"` // str | num
+	Text  string `json:"text"`
+}
+
+func (c *cfacts) note(e ast.Expr, kind string) {
+	if c.fset == nil || e == nil || !e.Pos().IsValid() {
+		return
+	}
+	a, b := c.fset.Position(e.Pos()), c.fset.Position(e.End())
+	rel := strings.TrimPrefix(strings.TrimPrefix(a.Filename, c.repo), "/")
+	c.sites = append(c.sites, factSite{rel, a.Offset, b.Offset, kind, exprText(e)})
+}
+
 func (c *cfacts) add(group, name, site string, val interface{}) {
+	if c.siteOf == nil {
+		c.siteOf = map[string][]factSite{}
+	}
+	c.siteOf[name] = c.sites
+	c.sites = nil
 	if len(c.pending) > 0 {
 		if c.bad == nil {
 			c.bad = map[string]string{}
@@ -80,7 +111,10 @@ func (c *cfacts) file(rel string) *ast.File {
 	if f, ok := c.files[rel]; ok {
 		return f
 	}
-	_, f, err := parseFile(c.repo, rel)
+	if c.fset == nil {
+		c.fset = token.NewFileSet()
+	}
+	f, err := parser.ParseFile(c.fset, filepath.Join(c.repo, rel), nil, parser.ParseComments)
 	if err != nil {
 		c.fail("%s: %v", rel, err)
 		f = &ast.File{Name: ast.NewIdent("missing")}
